@@ -333,10 +333,16 @@ struct Sba {
       size_t got = dispenso::approxBytesAllocatedSmallBuffer<N>();
       MC_CHECK(got == In::kMallocBytes * slabs(), "quiescent approxBytesAllocatedSmallBuffer<%zu>() = %zu with %zu slabs", N, got, slabs());
     }
-    // a last round on the quiescent allocator: three fresh blocks must again be exclusive
-    char* q[3];
-    for (char*& p : q) p = alloc(0);
-    for (char* p : q) dealloc(0, p);
+    // Drain: every other thread has exited (its cache went back to the central store), so T0 can take every
+    // block the allocator owns. A block that sits twice in the caches / central store (and would be handed
+    // out twice by some longer history) shows up here as "handed out twice".
+    size_t total = slabs() * In::kPerMalloc;
+    std::vector<char*> all;
+    for (size_t i = 0; i < total; i++) all.push_back(alloc(0));
+    if (In::globals() && slabs() * In::kPerMalloc == total) hcover("sba_drain_exact"); // nothing was lost either
+    mc::observe("lost", (long)(slabs() * In::kPerMalloc - total));
+    if (!In::globals()) all.push_back(alloc(0));
+    for (char* p : all) dealloc(0, p);
     (void)held_after_warm;
   }
 };
